@@ -23,12 +23,15 @@ TEXT = {
     "C04": dict(
         text="Theorems survives_crash_outside_rewrite_partial (every crash point after creation except between the truncation and the "
              "write of a rewrite: the restarted node lists the unit with its work type), survives_every_crash_if_atomic, finished_survives, "
-             "never_started_is_failed, remote_binding_survives, known_at_every_moment (a unit with a readable record is found at every "
+             "never_started_is_failed, remote_binding_survives, binding_survives_crash_after_ack_partial / binding_on_disk_during_stdin (once the "
+             "executing node's answer is on disk, every crash point outside a rewrite window — every instant of the stdin transfer in particular — "
+             "comes back with work type and binding), known_at_every_moment (a unit with a readable record is found at every "
              "moment of the re-registration of work types at start-up), and C04_witness_type_lost_in_window (the recorded finding) over a model of "
              "the unit's files as sequences of file-system steps cut at any point, and of scanForUnit/Restart. Tie: regenerated facts "
              "(in-place rewrite, scanForUnit's steps, Restart of command and remote units, order of the remote binding writes) + a remote "
              "unit finished and mirrored over a real two-node mesh, then the submitting node restarted with the link down (state, size, "
-             "binding and the complete output must survive) + real "
+             "binding and the complete output must survive) + a remote unit started against a scripted control-service connection, the record "
+             "on disk at every write of the stdin transfer restarted on (ackcrash) + real "
              "daemon processes on a data directory with real detached runners, killed with SIGKILL at armed crash points inside unit "
              "creation and status rewrites (daemon and runner), or from outside, restarted (repeatedly) and queried through the work "
              "commands: listed, work type, remote node, state/size, results fetched, no query blocks.",
